@@ -1,14 +1,21 @@
-//! Component-level gossipsub checks: C30 C31 C32 C33 C34 C36.
-mod c30;
-mod c31;
-mod c32;
-mod c33;
-mod c34;
-mod c36;
-mod drv;
-mod wire;
+use chk_gsub_pure::*;
 
 fn main() {
+    // `chk-gsub-pure --write-seeds <dir>`: (re)generate the golden seed corpus of the fuzz target gossipsub_rpc
+    let args: Vec<String> = std::env::args().collect();
+    if args.get(1).map(|s| s == "--write-seeds").unwrap_or(false) {
+        let dir = std::path::PathBuf::from(args.get(2).cloned().unwrap_or_else(|| "/verif/fuzz/seeds".into()));
+        match fuzzapi::write_seeds(&dir) {
+            Ok(n) => {
+                println!("{n} seed files written under {}", dir.display());
+                return;
+            }
+            Err(e) => {
+                eprintln!("cannot write seeds: {e}");
+                std::process::exit(2);
+            }
+        }
+    }
     vcore::runner::main(&[
         ("C30", c30::run),
         ("C31", c31::run),
